@@ -44,6 +44,8 @@ def _cfg(ctx, rel):
 
 
 def r1_configurations(ctx):
+    from . import C01 as _C01
+    _C01.r8_parenthesis(ctx)        # function arguments are split at separators of the function's own depth only (shared with C01.R8)
     C01.r3_maximal_munch(ctx)
     C01.r4_handlers(ctx)
     num, log = _cfg(ctx, NS), _cfg(ctx, LS)
